@@ -69,8 +69,8 @@ func c08Stream(maxSize int, withRsrc bool) {
 	vAssert("bytes_sent_counter", ft.bytesSentCounter.Total == int64(rest+len(rsrc)))
 }
 
-func VH_C08_DownloadStream_sym_quick()             { c08Stream(600, false) }
-func VH_C08_DownloadStream_sym_thorough()          { c08Stream(9000, false) }
+func VH_C08_DownloadStream_sym_quick()           { c08Stream(600, false) }
+func VH_C08_DownloadStream_sym_thorough()        { c08Stream(9000, false) }
 func VH_C08_DownloadStreamWithResourceFork_sym() { c08Stream(5, true) }
 
 // The transfer size the request handler announces (header + data for a file without resource fork) is the number of
